@@ -226,7 +226,9 @@ class Parser:
         if t.text == 'std' and self.peek(k + 1).text == '::':
             nm = self.peek(k + 2).text
             return nm in self.ctx.type_names or nm in ('string', 'vector', 'size_t', 'chrono', 'atomic', 'pair') or nm.endswith('_t')
-        if t.text in ('time_zone', 'PosixTransition', 'Transition') and self.peek(k + 1).text == '::':
+        if t.text == 'time_zone' and self.peek(k + 1).text == '::':
+            return self.peek(k + 2).text in self.ctx.type_names and self.peek(k + 3).text != '::'
+        if t.text in ('PosixTransition', 'Transition') and self.peek(k + 1).text == '::':
             return ('%s::%s' % (t.text, self.peek(k + 2).text)) in self.ctx.type_names
         return t.text in self.ctx.type_names or t.text in CIVIL_ALIASES or t.text in ('civil_time', 'time_point', 'seconds')
 
@@ -320,6 +322,8 @@ class Parser:
         is_ref = False
         while True:
             if self.accept('*'):
+                if is_const and not base.startswith('const ') and not base.endswith('*'):
+                    base = 'const ' + base      # pointer to const
                 base += '*'
                 while self.accept('const'):
                     pass
@@ -554,13 +558,18 @@ class Emitter:
         if objtype is None:
             return None
         base = objtype.rstrip('*')
+        if base.startswith('const '):
+            base = base[6:]
         if base in self.ctx.structs:
             return self.ctx.structs[base].get(name)
         return None
 
     def deref(self, t):
         if t and t.endswith('*'):
-            return t[:-1]
+            t = t[:-1]
+            if t.startswith('const ') and not t.endswith('*'):
+                t = t[6:]
+            return t
         return None
 
     def ctype(self, t):
@@ -573,6 +582,8 @@ class Emitter:
             t = t[:-1]
         if is_civil(t):
             t = 'fields'
+        if t.startswith('atomic_'):
+            t = t[len('atomic_'):]
         return t + stars
 
     # -- main
@@ -634,7 +645,7 @@ class Emitter:
             return txt, ty
         if name == 'EOF':
             return 'EOF', 'int'
-        if name in self.ctx.funcs:
+        if name in self.ctx.funcs or name in self.ctx.free_stubs:
             return name, 'func'
         if name == 'T' and self.ctx.template_T:
             return 'T', 'tagname'
@@ -659,6 +670,10 @@ class Emitter:
             return self.ctx.const_exprs[key2]
         if q[0] == 'numeric_limits' and targs:
             return ('numeric_limits', targs, q[1]), 'limits'
+        if key in self.ctx.free_stubs:
+            return key, 'qname'
+        if key2 in self.ctx.free_stubs:
+            return key2, 'qname'
         if len(q) == 1:
             return self.e_id(Node('id', q[0]))
         return key2, 'qname'
@@ -858,7 +873,7 @@ class Emitter:
             fire('R14')
             return '%s.data[%s]' % (a, i), 'char'
         if at and at.endswith('*'):
-            return '%s[%s]' % (a, i), at[:-1]
+            return '%s[%s]' % (a, i), self.deref(at)
         if at and at.endswith(']'):
             # array type "T[n][m]"
             m = re.match(r'(.*?)\[([^\]]*)\](.*)$', at)
@@ -879,6 +894,9 @@ class Emitter:
         if ot == 'fields' and name == 'f_':
             return o, 'fields'
         mt = self.member_type(ot, name)
+        okey = ((ot or '').rstrip('*').replace('const ', ''), name)
+        if okey in self.ctx.stub_methods:
+            return (o, ot, op, name), 'method'
         if mt is None:
             # method names are handled in e_call; return a marker
             return (o, ot, op, name), 'method'
@@ -915,6 +933,14 @@ class Emitter:
         if ft == 'method':
             o, ot, op, name = f
             return self.call_method(o, ot, op, name, args)
+        if ft == 'qname' and not args and f in getattr(self.ctx, 'functors', {}):
+            fire('R6')
+            return self.ctx.functors[f], 'functor'
+        if ft == 'functor':
+            # functor applied to arguments: cmp(a, b) -> cname(&a, &b)
+            fire('R6')
+            a = ['&(%s)' % self.emit(x)[0] for x in args]
+            return '%s(%s)' % (f, ', '.join(a)), 'bool'
         if ft == 'qname':
             if f in self.ctx.free_stubs:
                 return self.ctx.free_stubs[f](self, args)
@@ -939,7 +965,7 @@ class Emitter:
                 fld = self.ACCESSORS[name]
                 rty = 'year_t' if name == 'year' else 'int'
                 return '%s%s%s' % (o, op, fld), rty
-        key = (ot.rstrip('*') if ot else None, name)
+        key = (ot.rstrip('*').replace('const ', '') if ot else None, name)
         if key in self.ctx.stub_methods:
             return self.ctx.stub_methods[key](self, o, ot, op, args)
         raise ExtractError('method %s on %s not in subset' % (name, ot))
@@ -1067,7 +1093,7 @@ class FuncTranslator:
     def translate(self, loop_contracts=None, pre_loop=None, stmt_hooks=None):
         self.loop_contracts = loop_contracts or {}
         self.pre_loop = pre_loop or {}
-        self.stmt_hooks = [[h[0], h[1], 0] for h in (stmt_hooks or [])]
+        self.stmt_hooks = [[h[0], h[1], 0, (h[2] if len(h) > 2 else 'before')] for h in (stmt_hooks or [])]
         p = self.P()
         p.expect('{')
         body = ''
@@ -1127,7 +1153,7 @@ class FuncTranslator:
                     txt, ety = Emitter(self.ctx, self.scope, self.sig.cname).emit(e)
                     # widen the scope: declare in the enclosing block
                     self.scope[nm.text] = (ty, False)
-                    decl = '%s%s %s;' % ('const ' if (is_const and ty.endswith('*')) else '', self.E().ctype(ty), nm.text)
+                    decl = '%s %s;' % (self.E().ctype(ty), nm.text)
                     return decl, '(%s = %s) != NULL' % (nm.text, txt)
             except ExtractError:
                 pass
@@ -1140,10 +1166,16 @@ class FuncTranslator:
         pre = ''
         if self.stmt_hooks:
             head = ' '.join(tk.text for tk in p.toks[p.i:p.i + 14])
+            post = ''
             for h in self.stmt_hooks:
                 if re.match(h[0], head):
                     h[2] += 1
-                    pre += SPEC_PUSH + ''.join(self.ind(d) + ln + '\n' for ln in h[1].strip().split('\n')) + SPEC_POP
+                    txt = SPEC_PUSH + ''.join(self.ind(d) + ln + '\n' for ln in h[1].strip().split('\n')) + SPEC_POP
+                    if h[3] == 'after':
+                        post += txt
+                    else:
+                        pre += txt
+            return pre + self.statement1(p, d) + post
         return pre + self.statement1(p, d)
 
     def statement1(self, p, d):
@@ -1212,6 +1244,38 @@ class FuncTranslator:
             c = self.loop_contracts.get(my)
             clause = ('\n' + SPEC_PUSH + '\n'.join(self.ind(d + 1) + ln for ln in c.strip().split('\n')) + '\n' + SPEC_POP) if c else ''
             return s + I + 'do' + body + ' while (%s)%s;\n' % (self.E().emit(e)[0], clause)
+        if t.text == 'for' and p.peek(2).text == 'auto' and p.peek(3).text == '*' and p.peek(5).text == ':' and p.peek(6).text == '{':
+            fire('R15')
+            p.next(); p.expect('('); p.next(); p.next()
+            var = p.next().text
+            p.expect(':')
+            lst = p.parse_brace()
+            p.expect(')')
+            # capture the body tokens
+            start = p.i
+            if p.peek().text == '{':
+                depth = 0
+                while True:
+                    tk = p.next()
+                    if tk.text == '{':
+                        depth += 1
+                    elif tk.text == '}':
+                        depth -= 1
+                        if depth == 0:
+                            break
+            else:
+                while p.next().text != ';':
+                    pass
+            body_toks = p.toks[start:p.i]
+            out = ''
+            for el in lst.a:
+                txt, ty = self.E().emit(el)
+                self.scope = self.scope.new_child()
+                self.scope[var] = (ty, False)
+                sub = Parser(body_toks, self.ctx, self.scope)
+                out += I + '{\n' + self.ind(d + 1) + '%s %s = %s;\n' % (self.E().ctype(ty), var, txt) + self.statement(sub, d + 1) + I + '}\n'
+                self.scope = self.scope.parents
+            return out
         if t.text == 'for':
             p.next()
             p.expect('(')
@@ -1378,12 +1442,8 @@ class FuncTranslator:
                 q = ''
                 if is_static:
                     q += 'static '
-                if is_const:
-                    if cty.endswith('*'):
-                        # pointer-to-const
-                        q += 'const '
-                    else:
-                        q += 'const '
+                if is_const and not cty.startswith('const '):
+                    q += 'const '
                 if is_civil(vty) and init is None:
                     fire('R9')
                     init = 'ct_%s_default()' % civil_tag(vty)
